@@ -297,6 +297,8 @@ def check(case):
     for nme in names:
         res.label("inject:" + nme)
     res.label("faults:%d" % len(faults))
+    if prog.get("capture_hooks") and faults:
+        res.label("fault-in-@capture-decorated-hook")
     if stop:
         res.label("stop")
     if any(e == "AssertionError" for _k, e in faults):
@@ -325,6 +327,10 @@ def program_for_hooks(draw):
             for it in f["items"]:
                 if it["k"] == "r" and not it["tags"] and draw(st.booleans()):
                     it["tags"] = [draw(st.sampled_from(gen.TAGS))]
+    if draw(st.integers(0, 4)) == 0:
+        # environment functions decorated with behave.log_capture.capture (documented): a raising hook still
+        # counts, whether or not a log record was captured
+        prog["capture_hooks"] = draw(st.sampled_from(["plain", "error"]))
     normalize(prog)
     return prog
 
@@ -367,7 +373,8 @@ def required_labels(tier):
                                     "after_rule", "before_scenario", "after_scenario", "before_step", "after_step",
                                     "before_tag", "after_tag"]] + ["faults:2", "stop", "AssertionError", "fault-free",
                                                                      "dry-run", "skip-in-hook:feature",
-                                                                     "skip-in-hook:rule", "skip-in-hook:scenario"]
+                                                                     "skip-in-hook:rule", "skip-in-hook:scenario",
+                                                                     "fault-in-@capture-decorated-hook"]
 
 
 KNOWN_PREDICATES = {}
